@@ -4,6 +4,18 @@ import json
 
 # id -> (technique, level text, level_note, design_ref)
 CLAIMED = {
+ "C01": ("exhaustive choice-tree enumeration (E1) of zoom pairs x boundary-centred coordinate alphabets vs exact rational (x,f) and tolerance-banded (y) references",
+         "All zoom pairs x longitudes/altitudes at, one ulp either side of, and near every boundary class (incl. +-180, 0, the 2^25 m limits) are decided against exact big.Rat floors; latitudes either side of row boundaries against a banded reference; index range always; list length/order and nil rejection on all lists up to length 3.",
+         "Trusted: big.Rat arithmetic; float64 asinh(tan) with a 2^-43 undecided band. Coordinates between boundary neighbourhoods not covered.", "4/C01"),
+ "C02": ("exhaustive choice-tree enumeration (E1) of IDs over all zoom pairs x edge index classes: corner order/values, centre midpoint, relational round trip, bit-for-bit shared faces",
+         "Full product of zoom pairs x first/last/middle columns and rows x both ends and signs of f; exact dyadic lon/alt corners, banded lat corners, relational round trip centre->ID, and face sharing with the east, south and upper neighbour.",
+         "Trusted: exact dyadic boundary formulas; float64 inverse Mercator within the documented 1e-10 degree truncation.", "4/C02"),
+ "C06": ("exhaustive choice-tree enumeration (E1) of zoom pairs x base voxels x start positions x 343 end offsets in voxel units, plus long coarse segments, vs slab-intersection test and BFS connectivity",
+         "Every segment of the alphabet is checked for duplicate freedom, presence of both end voxels, every voxel touched by the segment (widened by the documented latitude resolution), 26-connectivity of the whole set, the single-voxel case and the spatial-ID form.",
+         "Segments longer than 7 voxels per axis are covered only at coarse zooms; positions outside the alphabets not covered.", "4/C06"),
+ "C09": ("exhaustive choice-tree enumeration (E1) of relational equalities between the library's own operations (no model)",
+         "All ordered zoom pairs per axis x a 98-point alphabet (both hemispheres, both signs of altitude, tile boundaries): coarse ID = zoom-out of fine ID, all IDs of a point pairwise overlap; IDs x refinements up to 3 levels: zoom in/out identity and merge of all descendants.",
+         "Relational oracle; each side is separately decided by C01/C03/C04/C05.", "4/C09"),
  "C13": ("exhaustive choice-tree enumeration (E1) of tile lists x (exponent, offset, output zoom) vs per-tile C12 conversion, exact interval reference and expansion reference",
          "Full product of tile vertical zoom x exponent x output zoom x index class x offset x footprint class x 8 list shapes (overlapping ranges, duplicates, a bad tile in each position): footprint kept, zoom, exact per-tile index set, containment of the tile interval, duplicate freedom, whole-call failure, and the spatial-ID variant as union of expansions.",
          "Trusted: ref.AltKeyToZ, ref.ChangeZoom. Calls predicted above 600 IDs are skipped and counted.", "4/C13"),
